@@ -8,7 +8,11 @@ use std::collections::HashSet;
 /// 统一定义「词项引用」 | 避免循环引用
 pub type TermRefType = Box<Term>;
 /// 统一定义「无序不重复词项容器」
+#[cfg(not(feature = "verif_hooks"))]
 pub type TermSetType = HashSet<Term>;
+/// （验证钩子）同一容器，但散列种子由验证脚本给定
+#[cfg(feature = "verif_hooks")]
+pub type TermSetType = HashSet<Term, crate::verif_hooks::SeededState>;
 /// 统一定义「有序可重复词项容器」
 pub type TermVecType = Vec<Term>;
 
